@@ -196,24 +196,39 @@ PROPERTIES = {
         not_decided=[],
     ),
     'C16': dict(
-        level='other', category='other',
-        explanation='BOUNDED (not proved): contracts of this property are checked at run time on the real code by a '
-                    'systematic enumeration in virtual time / under forced interleavings (scenarios/props/c16.py; bounds '
-                    'in its summary line). The deductive contracts for sync/async iterator bridges are not discharged yet.',
-        assumptions=['bounded enumeration only: nothing outside the stated bounds is covered'],
-        not_decided=['everything beyond the bounds'],
-        technique='bounded run-time contract checking on the real code (stand-in for contract-based deductive '
-                  'verification, labelled bounded)',
+        level='proof', category='proof', always_standin=True,
+        explanation='both bridges for an arbitrary source (any elements, then end or ANY exception): producer loop '
+                    'invariant handed_over = src[:i]; producer contract "on every exit the channel holds src followed by '
+                    'the sentinel exactly once and last, and it fails exactly when the source does" proved, then used by '
+                    'the consumer; consumer loop invariant out = channel[:d]; the loop test is identity with the private '
+                    'sentinel; result out = src, then the source\'s own exception is re-raised (future awaited / '
+                    'result() taken) or normal end; executor used as a context manager around every use (no helper thread '
+                    'left), worker runs in it; a synchronous ITERATOR is only ever advanced inside the function handed to '
+                    'the executor; non-iterators inline',
+        assumptions=['producer steps commute to the left of consumer steps (the producer reads no shared state; get() '
+                     'blocks until the next element of the same FIFO sequence is there), so running the producer to '
+                     'completion inside the run_in_executor / submit stub is representative of every interleaving',
+                     'FIFO of call_soon_threadsafe callbacks per thread and of queue.Queue; the sentinel object is '
+                     'private (no source yields it)',
+                     'ThreadPoolExecutor.__exit__ = shutdown(wait=True)'],
+        not_decided=['"does not block the event loop" as responsiveness: only WHERE the blocking statement runs is '
+                     'proved; the heartbeat measurement is the bounded stand-in\'s'],
     ),
     'C17': dict(
-        level='other', category='other',
-        explanation='BOUNDED (not proved): contracts of this property are checked at run time on the real code by a '
-                    'systematic enumeration in virtual time / under forced interleavings (scenarios/props/c17.py; bounds '
-                    'in its summary line). The deductive contracts for cross-loop awaiting are not discharged yet.',
-        assumptions=['bounded enumeration only: nothing outside the stated bounds is covered'],
-        not_decided=['everything beyond the bounds'],
-        technique='bounded run-time contract checking on the real code (stand-in for contract-based deductive '
-                  'verification, labelled bounded)',
+        level='proof', category='proof', always_standin=True,
+        explanation='ensure_aw / run_aw_threadsafe: result or exception is exactly the awaitable\'s, and the awaitable '
+                    'is evaluated exactly once with the TARGET loop as running loop on every branch (own loop inline; '
+                    'running target through run_coroutine_threadsafe+wrap_future; idle target through '
+                    'loop.run_until_complete in a pool thread); RuntimeError only for a closed foreign target; every '
+                    'run_until_complete / run_forever happens while holding the per-loop lock, released on every exit; '
+                    '_get_loop_lock under thread interference returns THE lock registered for id(loop), entries created '
+                    'only under the creation lock and never replaced, removal only by the loop\'s finalizer; '
+                    'loop_in_thread returns only after observing is_running(); its stop function schedules loop.stop '
+                    'thread-safely and joins the loop thread',
+        assumptions=['only these helpers run the loops concerned (lock discipline is proved for them, not for '
+                     'arbitrary user code)', 'wrap_future / run_in_executor are outcome-preserving bridges'],
+        not_decided=['"every ensure_aw call completes when its awaitable does" is liveness; its safety kernel '
+                     'pre(run_coroutine_threadsafe).target_keeps_running FAILS on the current tree (known finding D8)'],
     ),
     'C18': dict(
         level='proof',
